@@ -41,7 +41,7 @@ CHECKS = {
     "C10": (
         "exploration",
         "Hypothesis: valid programs, token-level corruptions, injected static errors, degenerate files, arbitrary text; exception-type oracle",
-        "Generated inputs of five classes; the call must return or raise one of the three documented exception types, and "
+        "Generated inputs of six classes (incl. SsbScript sources behind the marker line and macro call cycles across files); the call must return or raise one of the three documented exception types, and "
         "every program with one injected static error from the property's list must be rejected. A CLI stage checks exit "
         "status / stderr of python -m explorerscript.cli.compile on a sample.",
         "Each injected error is statically meaningless by construction (snippets in vf/checks/c10.py); ids > 60 not generated.",
@@ -64,7 +64,7 @@ CHECKS = {
         "(all paths, parameters, routine tables); compile(decompile(x)) is compared with x as the derived claim. The input "
         "space is sampled; every sample is decided exactly.",
         "Trusts S / M (vf/model.py), the generated ANTLR parser and the reference literal reader; inputs that raise, take "
-        "the fallback or exceed the step budget are C06's; five known findings (known_findings.json) are excluded by narrow predicates.",
+        "the fallback or exceed the step budget are C06's; six known findings (known_findings.json) are excluded by narrow predicates.",
         "DESIGN.md 4 C02",
     ),
     "C04": (
